@@ -28,6 +28,7 @@ geometry 3, ρ₀ = 1 and any 6/5 ≤ λ ≤ 2 it is ≠ 0.
 import EPV.Spec.Guderley
 import EPV.Gen.GudF
 import EPV.Gen.GudEnergy
+import EPV.Gen.GudFe
 import EPV.Lemmas.Guderley
 import EPV.Lemmas.Euler1Db
 
@@ -257,6 +258,46 @@ theorem energy_integral_conserved (V C R : ℝ → ℝ) (gam lam nu e0 x : ℝ)
   ring
 
 theorem energy_leaves : GudEnergy.okLeaves = [0, 1] := rfl
+
+/-- Chisnell's variables (eexp.py) of a Lazarus state (ramsey.py): a = 1/λ, g = γ, n = ν + 1,
+t = -V/λ, y = C²/λ² -/
+noncomputable def chisnell (lam gam nu V C : ℝ) : GudFe.P :=
+  { a := 1 / lam, g := gam, n := nu + 1, t := -V / lam, y0 := C * C / lam ^ 2 }
+
+/-- **the exponent λ that `eexp` computes belongs to the system `state` integrates**: the right-hand
+side `fe` of eexp.py (Chisnell 1998, Eq. 3.1: dC²/dV in Chisnell's variables) is exactly
+(dy/dx)/(dt/dx) of the Lazarus system of ramsey.py under t = -V/λ, y = C²/λ², a = 1/λ, n = ν + 1 -/
+theorem chisnell_is_phase_plane_of_lazarus (lam gam nu V C : ℝ) (hl : lam ≠ 0) (hg : gam ≠ 0) (hV : V + 1 ≠ 0)
+    (hN : Gud.N0 lam gam nu V C ≠ 0) (hW : GudFe.L0.WellDefined (chisnell lam gam nu V C)) :
+    GudFe.dy0 (chisnell lam gam nu V C)
+      = (2 * (C / lam ^ 2) * (C * Gud.N1 lam gam nu V C)) / (-(1 / lam) * Gud.N0 lam gam nu V C) := by
+  unfold GudFe.L0.WellDefined at hW
+  obtain ⟨_, _, hden⟩ := hW
+  simp only [epv_tree, epv_leaf]
+  rw [div_eq_iff hden]
+  simp only [chisnell, Real.rpow_two]
+  obtain ⟨m, hm⟩ : ∃ m, Gud.N0 lam gam nu V C = m := ⟨_, rfl⟩
+  rw [hm] at hN ⊢
+  simp only [Gud.N1]
+  field_simp
+  subst hm
+  simp only [Gud.N0]
+  field_simp
+  ring
+
+/-- … where (dy/dx)/(dt/dx) is formed from the traced `g` -/
+theorem phase_plane_of_g (p : GudG.P) (hl : p.lambda_ ≠ 0) (hx : p.x ≠ 0)
+    (hD : p.C * p.C - (p.V + 1) ^ 2 ≠ 0) :
+    (2 * (p.C / p.lambda_ ^ 2) * GudG.dC p) / (-(1 / p.lambda_) * GudG.dV p)
+      = (2 * (p.C / p.lambda_ ^ 2) * (p.C * Gud.N1 p.lambda_ p.gamma p.nu p.V p.C))
+          / (-(1 / p.lambda_) * Gud.N0 p.lambda_ p.gamma p.nu p.V p.C) := by
+  simp only [epv_tree, epv_leaf, Gud.N0, Gud.N1]
+  obtain ⟨d, hd⟩ : ∃ d, p.C * p.C - (p.V + 1) ^ 2 = d := ⟨_, rfl⟩
+  rw [hd] at hD ⊢
+  by_cases hN : (((p.nu + 1) * p.V + 2 * ((p.lambda_ - 1) / p.gamma)) * (p.C * p.C) - p.V * (p.V + 1) * (p.V + p.lambda_)) = 0
+  · simp [hN]
+  · field_simp
+
 
 /-! ### FINDING: the same fields as functions of the solver's own time argument -/
 
